@@ -4,7 +4,8 @@ C18, proofs part 2: each validation step of `Model.Validation` characterised in 
 import OpenFGAVerif.Proofs.Validation
 
 namespace OpenFGAVerif.Proofs.Validation
-open OpenFGAVerif.Model.TupleStr OpenFGAVerif.Spec.TupleStr OpenFGAVerif.Proofs.TupleStr
+open OpenFGAVerif.Model.TupleStr (Bytes cColon cHash cAt cStar cSpace wildcard runes isControl indexByte lastIndexByte splitObject buildObject getType splitObjectRelation getRelation toObjectRelationString getObjectRelationAsString toUserParts isValidObject isValidRelation isValidUserID isValidUserset isValidUser isObjectRelation isTypedWildcard isWildcard typedPublicWildcard)
+open OpenFGAVerif.Spec.TupleStr OpenFGAVerif.Proofs.TupleStr
 open OpenFGAVerif.Model.Validation OpenFGAVerif.Spec.Allowed
 
 /-! ### ValidateUser -/
